@@ -28,7 +28,7 @@ HYPOTHESES = [
     "Hψ5 (Jaeschke 1993): no odd composite n < 2152302898747 is a strong probable prime to all of the bases 2,3,5,7,11",
     "Hψ12 (Sorenson-Webster 2015, psi_12 > 2^64): no odd composite n < 2^64 is a strong probable prime to all twelve prime bases up to 37",
 ]
-RULE = ("isprime64: every odd p and every p < 200 below 2^16 (quick) / 2^21 (thorough), sampled evens >= 200 (an even that "
+RULE = ("isprime64: every odd p and every p < 200 below 2^16 (quick) / 2^22 (thorough), sampled evens >= 200 (an even that "
         "hangs costs a full timeout, so they are sampled), dense windows around 199, 2^20, 2^32, 2^40, 2^63, 2^64, all published psi_k, "
         "families p(r(p-1)+1), Carmichael (6k+1)(12k+1)(18k+1), random primes/semiprimes/squares of every bit size; "
         "pseudoprime: the same 64-bit corpora plus 65..512-bit certified primes (Pocklington chains, Proth primes with low word 1), "
@@ -234,7 +234,7 @@ def cases(tier, rng, extended=False):
     quick = tier == "quick"
     scale = (1 if quick else 12) * (10 if extended else 1)
     # ---- isprime64: exhaustive low range (odd p and everything below 200), sampled evens
-    top = (1 << 16) if quick else (1 << 21)
+    top = (1 << 16) if quick else (1 << 22)
     for p in range(0, 200):
         yield from c64(p)
     for p in range(201, top, 2):
@@ -357,7 +357,10 @@ def cases(tier, rng, extended=False):
 def corpus_case(line):
     n = int(line.split()[1])
     oversize = n % 2 == 1 and n.bit_length() > 512          # refused by the assert of ZmodN::new (C03 / F12)
-    return Case(line, timeout=T64 if line.startswith("isprime64") else 20.0, o=not oversize)
+    t = 20.0
+    if line.startswith("isprime64"):
+        t = TEVEN if n % 2 == 0 else T64
+    return Case(line, timeout=t, o=not oversize)
 
 
 def oracle(case, ans):
